@@ -498,4 +498,67 @@ example : ∃ (ys : List ℝ) (s : ℝ), clipByGlobalNorm (Real.sqrt (l2Squared 
     (Real.sqrt (l2Squared [3, 4]) ≤ 1 → ys = [3, 4]) :=
   C07_clip_real [3, 4] 1 (by norm_num)
 
+/-! ## complex leaves
+
+A complex leaf enters the flattened tree as the pairs `(re, im)` of real coordinates (`realify`): the global norm is
+`√Σ|z|² = √Σ(re² + im²)`, the clip scale is real, so every theorem above applies verbatim to the realified tree.  The
+two statements below spell the consequence out: the squared norm is `Σ |z|²`, and clipping multiplies every complex
+number by one real factor `s ∈ (0, 1]` — modulus scaled, phase unchanged. -/
+
+section Complex
+variable {K : Type} [Field K] [LinearOrder K] [IsStrictOrderedRing K]
+
+/-- flattened real coordinates of a list of complex numbers given as `(re, im)` -/
+def realify (zs : List (K × K)) : List K := zs.flatMap fun z => [z.1, z.2]
+
+omit [LinearOrder K] [IsStrictOrderedRing K] in
+theorem realify_scale (s : K) (zs : List (K × K)) :
+    (realify zs).map (fun t => s * t) = realify (zs.map fun z => (s * z.1, s * z.2)) := by
+  induction zs with
+  | nil => simp [realify]
+  | cons z zs ih =>
+    simp only [realify, List.flatMap_cons, List.map_append, List.map_cons, List.map_nil] at ih ⊢
+    rw [ih]
+
+omit [LinearOrder K] [IsStrictOrderedRing K] in
+/-- `tree_l2_squared` of a complex tree is `Σ |z|² = Σ (re² + im²)` (`vdot` conjugates its first argument). -/
+theorem C07_l2Squared_complex (zs : List (K × K)) :
+    l2Squared (realify zs) = (zs.map fun z => z.1 * z.1 + z.2 * z.2).sum := by
+  unfold l2Squared
+  induction zs with
+  | nil => simp [realify]
+  | cons z zs ih =>
+    simp only [realify, List.flatMap_cons, List.map_append, List.map_cons, List.map_nil, List.sum_append,
+      List.sum_cons, List.sum_nil] at ih ⊢
+    rw [ih]; ring
+
+/-- Clipping a complex tree multiplies every complex coordinate by ONE real factor `s ∈ (0, 1]` (phase unchanged),
+is the identity at or below the bound, and its result has `Σ|z|² ≤ M²`. -/
+theorem C07_clip_complex (nrm M : K) (zs : List (K × K)) (hn : 0 ≤ nrm)
+    (hsq : nrm * nrm = (zs.map fun z => z.1 * z.1 + z.2 * z.2).sum) (hM : 0 < M) :
+    ∃ s, 0 < s ∧ s ≤ 1 ∧
+      clipByGlobalNorm nrm M (realify zs) = some (realify (zs.map fun z => (s * z.1, s * z.2))) ∧
+      ((zs.map fun z => (s * z.1, s * z.2)).map fun z => z.1 * z.1 + z.2 * z.2).sum ≤ M * M ∧
+      (nrm ≤ M → s = 1) := by
+  obtain ⟨s, hs, h1, h2, h3, h4, _⟩ := clipScale_spec nrm M hn hM
+  refine ⟨s, h1, h2, ?_, ?_, h4⟩
+  · simp only [clipByGlobalNorm, hs, Option.map_some]
+    rw [realify_scale]
+  · rw [← C07_l2Squared_complex, ← realify_scale, l2Squared_scale, C07_l2Squared_complex, ← hsq]
+    have hn' : 0 ≤ s * nrm := mul_nonneg h1.le hn
+    calc s * s * (nrm * nrm) = (s * nrm) * (s * nrm) := by ring
+      _ ≤ M * M := mul_le_mul h3 h3 hn' hM.le
+
+end Complex
+
+example : clipByGlobalNorm (5 : Rat) 1 (realify [((3 : Rat), (4 : Rat))]) = some (realify [(3/5, 4/5)]) := by
+  norm_num [clipByGlobalNorm, clipScale, realify]
+example : ∃ s : Rat, 0 < s ∧ s ≤ 1 ∧
+    clipByGlobalNorm 5 1 (realify [((0 : Rat), (5 : Rat))]) = some (realify ([((0 : Rat), (5 : Rat))].map fun z => (s * z.1, s * z.2))) ∧
+    (([((0 : Rat), (5 : Rat))].map fun z => (s * z.1, s * z.2)).map fun z => z.1 * z.1 + z.2 * z.2).sum ≤ 1 * 1 ∧
+    ((5 : Rat) ≤ 1 → s = 1) :=
+  C07_clip_complex 5 1 [(0, 5)] (by norm_num) (by norm_num) (by norm_num)
+example : l2Squared (realify [((3 : Rat), (4 : Rat)), (0, 1)]) = 26 := by
+  rw [C07_l2Squared_complex]; norm_num
+
 end FedjaxVerif.TreeUtil
